@@ -45,22 +45,25 @@ type MuxOp struct {
 }
 
 type Scenario struct {
-	RunSeed   uint64         `json:"run_seed"`
-	Kind      string         `json:"kind"` // admission | mux
-	Strategy  int            `json:"strategy"`
-	PCTDepth  int            `json:"pct_depth,omitempty"`
-	Transport string         `json:"transport,omitempty"` // udp | tcp
-	Policy    string         `json:"policy,omitempty"`    // default | random
-	PolicyKey uint64         `json:"policy_key,omitempty"`
-	UDPSize   int            `json:"udp_size,omitempty"`
-	Dup       int            `json:"dup,omitempty"`
-	SegMode   int            `json:"segmode,omitempty"`
-	ShortRead int            `json:"shortread,omitempty"`
-	Yield     bool           `json:"yield,omitempty"` // accept policy and reader take a scheduling point
-	Peers     int            `json:"peers,omitempty"`
-	Msgs      []InMsg        `json:"msgs,omitempty"`
-	Initial   map[string]int `json:"initial,omitempty"` // mux: patterns registered before the tasks start
-	Ops       []MuxOp        `json:"ops,omitempty"`
+	RunSeed     uint64         `json:"run_seed"`
+	Kind        string         `json:"kind"` // admission | mux
+	Strategy    int            `json:"strategy"`
+	PCTDepth    int            `json:"pct_depth,omitempty"`
+	Transport   string         `json:"transport,omitempty"` // udp | tcp
+	Policy      string         `json:"policy,omitempty"`    // default | random
+	PolicyKey   uint64         `json:"policy_key,omitempty"`
+	UDPSize     int            `json:"udp_size,omitempty"`
+	Dup         int            `json:"dup,omitempty"`
+	SegMode     int            `json:"segmode,omitempty"`
+	ShortRead   int            `json:"shortread,omitempty"`
+	Yield       bool           `json:"yield,omitempty"` // accept policy and reader take a scheduling point
+	Peers       int            `json:"peers,omitempty"`
+	StallAt     int            `json:"stall_at,omitempty"` // tcp, one peer: before its n-th frame (1-based) the peer sends only StallOctets of it, pauses longer than the server\'s read timeout, then carries on
+	StallOctets int            `json:"stall_octets,omitempty"`
+	ShutAfter   int            `json:"shut_after,omitempty"` // udp: Shutdown is called after this many steps, while peers are still sending (0 = after they are done)
+	Msgs        []InMsg        `json:"msgs,omitempty"`
+	Initial     map[string]int `json:"initial,omitempty"` // mux: patterns registered before the tasks start
+	Ops         []MuxOp        `json:"ops,omitempty"`
 }
 
 var labels = []string{"a", "b", "c", "a\\.b", "c\\046a"} // the last two are single labels that contain a dot
@@ -127,6 +130,10 @@ func Gen(seed uint64, tier string) any {
 	sc.ShortRead = core.Pick(r, 0, 40)
 	sc.Yield = core.Chance(r, 40)
 	sc.Peers = 1 + r.IntN(3)
+	if sc.Transport == "udp" && core.Chance(r, 25) {
+		sc.ShutAfter = 5 + r.IntN(60)
+		sc.Dup = 0
+	}
 	n := 1 + r.IntN(12)
 	if tier == "thorough" {
 		n = 1 + r.IntN(40)
@@ -138,6 +145,16 @@ func Gen(seed uint64, tier string) any {
 			b[0], b[1] = byte((0x100+i)>>8), byte(0x100+i)
 		}
 		sc.Msgs = append(sc.Msgs, InMsg{Peer: r.IntN(sc.Peers), Hex: hex.EncodeToString(b), Note: note})
+	}
+	if sc.Transport == "tcp" && core.Chance(r, 15) {
+		// a peer that stalls in the middle of a frame for longer than the read timeout
+		sc.Peers = 1
+		for i := range sc.Msgs {
+			sc.Msgs[i].Peer = 0
+		}
+		sc.StallAt = 1 + r.IntN(len(sc.Msgs))
+		b, _ := hex.DecodeString(sc.Msgs[sc.StallAt-1].Hex)
+		sc.StallOctets = r.IntN(len(b) + 2)
 	}
 	return sc
 }
@@ -412,14 +429,29 @@ func (p *peerTask) RunEvent(time.Time) {
 	} else {
 		dconn = a.n.DialPacket(a.pc)
 	}
+	sentFrames := 0
 	for _, im := range a.sc.Msgs {
 		if im.Peer != p.pi {
 			continue
 		}
 		b, _ := hex.DecodeString(im.Hex)
 		if sconn != nil {
-			if _, err := sconn.Write(oracle.Frame(b)); err != nil {
-				break
+			fr := oracle.Frame(b)
+			sentFrames++
+			if a.sc.StallAt == sentFrames {
+				k.Bump("fault.peer_stalls_mid_frame")
+				if n := min(a.sc.StallOctets, len(fr)); n > 0 {
+					if _, err := sconn.Write(fr[:n]); err != nil {
+						break
+					}
+					fr = fr[n:]
+				}
+				k.Sleep("peer.stall", 3*stallTimeout)
+			}
+			if len(fr) > 0 {
+				if _, err := sconn.Write(fr); err != nil {
+					break
+				}
 			}
 		} else {
 			dconn.Write(b)
@@ -468,10 +500,16 @@ type admLife struct{ a *adm }
 func (l admLife) RunEvent(time.Time) {
 	a := l.a
 	defer a.fin(&a.lifeFin)
-	if !a.k.Wait("life.wait", 0, admPeersDone{a}, 0) {
-		return
+	if a.sc.ShutAfter > 0 && a.sc.Transport == "udp" {
+		// stop the server while datagrams are still arriving: whatever its read returned must still be accounted for
+		a.k.WaitSteps("life.steps", a.sc.ShutAfter, 5*time.Millisecond)
+		a.k.Bump("fault.shutdown_during_traffic")
+	} else {
+		if !a.k.Wait("life.wait", 0, admPeersDone{a}, 0) {
+			return
+		}
+		a.k.Sleep("life.grace", time.Second)
 	}
-	a.k.Sleep("life.grace", time.Second)
 	for i := 0; i < 100; i++ {
 		if err := a.srv.Shutdown(); err == nil {
 			break
@@ -484,7 +522,7 @@ type admDone struct{ a *adm }
 
 //go:norace
 func (d admDone) Check(time.Time) string {
-	if d.a.lifeFin && d.a.serveRet {
+	if d.a.lifeFin && d.a.serveRet && (admPeersDone{d.a}).Holds() {
 		return "done"
 	}
 	return ""
@@ -504,6 +542,9 @@ func runAdmission(sc *Scenario, res *core.Result, verbose bool) {
 	a.srv = &dns.Server{Handler: a, MsgAcceptFunc: a.accept, MsgInvalidFunc: a.invalidFunc, UDPSize: sc.UDPSize, ReadTimeout: time.Hour, IdleTimeout: hour, MaxTCPQueries: -1}
 	if sc.Yield {
 		a.srv.DecorateReader = (&common.Decorator{K: k}).Decorate
+	}
+	if sc.StallAt > 0 {
+		a.srv.ReadTimeout, a.srv.IdleTimeout = stallTimeout, shortIdle
 	}
 	if sc.Transport == "tcp" {
 		a.l = n.Listen()
@@ -551,6 +592,11 @@ func runAdmission(sc *Scenario, res *core.Result, verbose bool) {
 //go:norace
 func hour() time.Duration { return time.Hour }
 
+const stallTimeout = 300 * time.Millisecond
+
+//go:norace
+func shortIdle() time.Duration { return stallTimeout }
+
 type repl struct {
 	h   oracle.Header
 	raw []byte
@@ -580,6 +626,12 @@ func (a *adm) judge() {
 		for _, c := range a.n.Conns {
 			if c.Role == "cli" {
 				frames, _ := oracle.Frames(c.Sent())
+				if sc.StallAt > 0 {
+					// the server gives up on the connection when its read times out in
+					// (or before) the stalled frame: nothing from there on is a message
+					// it received
+					frames = frames[:min(sc.StallAt-1, len(frames))]
+				}
 				inbound = append(inbound, frames...)
 			}
 		}
